@@ -220,37 +220,44 @@ def _extract_tree_helper(f: FuncInfo, bias: int, want_yield_on: bool):
         raise Outside("truthiness of %s (= %s) is not a size test" % (unparse(t), l))
 
     def block(stmts: List[ast.stmt]) -> bool:
-        """returns True once a yield was seen"""
-        for st in stmts:
-            if isinstance(st, ast.Expr) and isinstance(st.value, ast.Constant):
-                continue
-            if isinstance(st, ast.Assign) and isinstance(st.targets[0], ast.Name):
-                v = st.value
-                if attr_path(v) == (iv, "data"):
-                    node_names.add(st.targets[0].id)
-                    continue
-                if isinstance(v, ast.Call) and getter and attr_path(v.func) == (getter[0],) and len(v.args) == 1 \
-                        and (attr_path(v.args[0]) == (iv, "data") or
-                             (isinstance(v.args[0], ast.Name) and v.args[0].id in node_names)):
-                    ivl_names.add(st.targets[0].id)
-                    continue
+        """the keep condition = the outcomes of the loop's tests that dominate the yield (guards
+        as 'if c: continue', nested ifs, one 'or' of skip conditions or one 'and' of keep
+        conditions all give the same facts)"""
+        from ..cfg import CFG as _CFG
+        ys = [s for s in ast.walk(lp) if isinstance(s, ast.Expr) and isinstance(s.value, ast.Yield)]
+        if not ys:
+            return False
+        if len(ys) != 1:
+            raise Outside("several yields in the loop")
+        for st in sorted((n for n in ast.walk(lp) if isinstance(n, ast.Assign)), key=lambda n: (n.lineno, n.col_offset)):
+            if not isinstance(st.targets[0], ast.Name):
                 raise Outside("assignment %s" % unparse(st))
-            if isinstance(st, ast.If):
-                body_cont = len(st.body) == 1 and isinstance(st.body[0], ast.Continue) and not st.orelse
-                if body_cont:
-                    cond(st.test, False)
-                    continue
-                ys = [s for s in st.body if isinstance(s, ast.Expr) and isinstance(s.value, ast.Yield)]
-                if len(st.body) == 1 and ys and not st.orelse:
-                    cond(st.test, True)
-                    _check_yield(ys[0].value)
-                    return True
-                raise Outside("if-statement %s" % unparse(st.test))
-            if isinstance(st, ast.Expr) and isinstance(st.value, ast.Yield):
-                _check_yield(st.value)
-                return True
-            raise Outside("statement %s" % type(st).__name__)
-        return False
+            v = st.value
+            if attr_path(v) == (iv, "data"):
+                node_names.add(st.targets[0].id)
+                continue
+            if isinstance(v, ast.Call) and getter and attr_path(v.func) == (getter[0],) and len(v.args) == 1 \
+                    and (attr_path(v.args[0]) == (iv, "data") or
+                         (isinstance(v.args[0], ast.Name) and v.args[0].id in node_names)):
+                ivl_names.add(st.targets[0].id)
+                continue
+            raise Outside("assignment %s" % unparse(st))
+        for st in ast.walk(lp):
+            if isinstance(st, (ast.While, ast.Try, ast.With, ast.Return, ast.Break, ast.Raise)) or \
+                    (isinstance(st, ast.For) and st is not lp):
+                raise Outside("statement %s in the loop" % type(st).__name__)
+        flow = _CFG(f.node)
+        inside = {id(n) for n in ast.walk(lp)}
+        loop_tests = {id(i.ast) for i in flow.info.values() if i.kind == "test" and id(i.ast) in inside}
+        used: Set[int] = set()
+        for t, v in flow.facts_at(flow.node_of(ys[0])):
+            if id(t) in loop_tests:
+                cond(t, v)
+                used.add(id(t))
+        if loop_tests - used:
+            raise Outside("a test in the loop does not decide whether the node is yielded")
+        _check_yield(ys[0].value)
+        return True
 
     def _check_yield(y: ast.Yield) -> None:
         v = y.value
